@@ -235,7 +235,7 @@ def flags (t : Tgt) (c : Case) : String :=
 /-- X = a BigInt bound whose float64 comparison differs from the comparison of the integers. -/
 def bigFlag (t : Tgt) (k : Chk) (c : Case) : String :=
   match t, k, c.den.int? with
-  | .big, .cmpBig op b, some n => if bigCmpViaFloat op n b != op.holdsInt n b then "X" else ""
+  | .big, .cmpBig op b, some n => if bigCmpExact op n b != op.holdsInt n b then "X" else ""
   | _, _, _ => ""
 
 def runHelper (h : String) (t : Tgt) (c : Case) : Option (R Val) :=
@@ -279,11 +279,9 @@ def specHolds (t : Tgt) (c : Chk) (v : Val) : Bool :=
   | .cmp op b, .flt x => specCmp op (.f x) b
   | .minLen n, .str bs => decide (n ≤ bs.length)
   | .maxLen n, .str bs => decide (bs.length ≤ n)
-  -- BigInt bounds: the statement's third sentence holds the coercing schema to what the plain
-  -- BigInt schema does with the value (judged on the implementation: c0/c1); that is a comparison
-  -- through float64 (`bigCmpViaFloat`, inexact above 2^53: flag X, theorem `bigint_check_witness`)
+  -- BigInt bounds: the comparison of the integers (exact since the big.Int.Cmp fix)
   | .cmpBig op b, .int n => (match t with
-      | .big => bigCmpViaFloat op n b
+      | .big => op.holdsInt n b
       | _ => true)
   | _, _ => true
 
